@@ -840,13 +840,7 @@ fn c12_one(reg: &PortableRegistry, id: u32, seed: u64, expect_ok: bool) -> Optio
                 Err(e) => return Some(format!("bytes of example {v:?} do not decode: {e}")),
                 Ok(d) => {
                     if !cur.is_empty() { return Some(format!("decoding the bytes of example {v:?} leaves {} bytes", cur.len())); }
-                    if d.clone().remove_context() != v {
-                        // a compact around a wrapper decodes to the bare number: compare the encodings instead
-                        let mut b2 = vec![];
-                        let same = scale_value::scale::encode_as_type(&d.clone().remove_context(), id, reg, &mut b2).is_ok() && b2 == bytes;
-                        let through_compact_wrapper = matches!(reg.resolve(id).map(|t| &t.type_def), Some(scale_info::TypeDef::Compact(_)));
-                        if !(same && through_compact_wrapper) { return Some(format!("example {v:?} decodes back to a different value {:?}", d.remove_context())); }
-                    }
+                    if d.clone().remove_context() != v { return Some(format!("example {v:?} decodes back to a different value {:?}", d.remove_context())); }
                 }
             }
             match panic::catch_unwind(|| scale_value_from_seed(id, reg, seed)) {
